@@ -82,7 +82,9 @@ func runC15(c *Ctx) error {
 		zh  bool
 	}
 	specials := []sm{{"x", false}, {"?", false}, {"错", true}, {"it's wrong", false}, {"'q'", false}, {"数字'0-9'", true}, {"见 explain: 内文", true},
-		{"see explain: inner", false}, {"a=b", false}, {"(x)", false}, {"m;", false}, {"ends with blank ", false}}
+		{"see explain: inner", false}, {"a=b", false}, {"(x)", false}, {"m;", false}, {"ends with blank ", false},
+		// format verbs: the error text is never a format string
+		{"at most 100% of it", false}, {"%d %s %v %%", false}, {"占比 50% 以内", true}}
 	for i := 0; i < n+len(violated)*len(specials); i++ {
 		x := violated[r.Intn(len(violated))]
 		msg, zh := c15Message(r, i)
@@ -101,6 +103,10 @@ func runC15(c *Ctx) error {
 			text = x.rule
 		}
 		entry := r.Pick([]string{"var", "struct", "map"})
+		if i >= n { // the directed grid meets every entry point with every message shape (rules rotate)
+			j := i - n
+			entry = []string{"var", "struct", "map"}[(j/len(specials)+j%len(specials))%3]
+		}
 		if _, isStr := x.val.(string); !isStr && entry == "map" {
 			entry = "var"
 		}
